@@ -71,3 +71,11 @@ Theorem C03_rest_export_verbatim : forall r, rest_ok r -> rest_canonical_order r
   kern_recognise (str (print_rest r)) = KTok (rest_token r) /\ kern_tokenize all_cats (rest_token r) = Ok (str (print_rest r)).
 Proof. intros r H1 H2. exact (conj (recognise_print_rest r H1) (kern_export_canonical_rest r H1 H2)). Qed.
 Print Assumptions C03_rest_export_verbatim.
+
+(* no note of a chord is lost, merged or altered by the import: the canonical chord text is read back as exactly its
+   notes (each with its duration marks, pitch letters, accidental and the chord's signifiers), for any number of notes *)
+From KV Require Import ChordProofs.
+Theorem C03_chord_notes_conserved : forall D notes, 2 <= List.length notes -> chord_ok D notes ->
+  kern_recognise (str (print_chord notes)) = KTok (TChord (str (print_chord notes)) (map (chord_note D) notes)).
+Proof. exact recognise_print_chord. Qed.
+Print Assumptions C03_chord_notes_conserved.
